@@ -483,8 +483,9 @@ func (fi *FnInfo) load(u *ssa.UnOp) *Term {
 			// zero value or initialised through field stores / callee writes: name by the place
 			return fi.place(a)
 		}
-		// a store to the same non-escaping variable earlier in the same block reaches this load
-		if !fi.allocEsc[a] {
+		// a store to the same variable earlier in the same block reaches this load; for a variable
+		// that closures may write, only if no call/defer/go sits between the store and the load
+		{
 			var last ssa.Value
 			for _, in := range u.Block().Instrs {
 				if in == ssa.Instruction(u) {
@@ -492,11 +493,21 @@ func (fi *FnInfo) load(u *ssa.UnOp) *Term {
 				}
 				if st, ok := in.(*ssa.Store); ok && st.Addr == ssa.Value(a) {
 					last = st.Val
+					continue
+				}
+				if fi.allocEsc[a] {
+					switch in.(type) {
+					case ssa.CallInstruction:
+						last = nil
+					}
 				}
 			}
 			if last != nil {
 				return fi.T(last)
 			}
+		}
+		if sv := fi.reachingStore(u, a); sv != nil {
+			return fi.T(sv)
 		}
 		return fi.uniq(TVar, "load:"+a.Comment, u)
 	case *ssa.FreeVar:
@@ -508,7 +519,9 @@ func (fi *FnInfo) load(u *ssa.UnOp) *Term {
 		return fi.place(a)
 	case *ssa.FieldAddr:
 		if baseAlloc(a) == nil && fi.storedF[fieldKey(a.X.Type(), a.Field)] {
-			return fi.uniq(TVar, "load:"+fi.place(a).s, u)
+			t := fi.uniq(TVar, "load:"+fi.place(a).s, u)
+			t.Sub = []*Term{fi.place(a)} // the place whose current value this is (pattern cur(P))
+			return t
 		}
 		if ba := baseAlloc(a); ba != nil {
 			// field of a local struct: if stored to exactly once through this path and before, alias
@@ -979,4 +992,36 @@ func (t *Term) paramsToFree() *Term {
 	c.Sub = ns
 	c.s = c.render()
 	return &c
+}
+
+// reachingStore walks backwards from a load along single-predecessor chains to the unique store that
+// reaches it; for variables that closures may write, any intervening call stops the walk.
+func (fi *FnInfo) reachingStore(u *ssa.UnOp, a *ssa.Alloc) ssa.Value {
+	b := u.Block()
+	idx := len(b.Instrs)
+	for i, in := range b.Instrs {
+		if in == ssa.Instruction(u) {
+			idx = i
+		}
+	}
+	for steps := 0; steps < 8; steps++ {
+		for i := idx - 1; i >= 0; i-- {
+			switch x := b.Instrs[i].(type) {
+			case *ssa.Store:
+				if x.Addr == ssa.Value(a) {
+					return x.Val
+				}
+			case ssa.CallInstruction:
+				if fi.allocEsc[a] {
+					return nil
+				}
+			}
+		}
+		if len(b.Preds) != 1 {
+			return nil
+		}
+		b = b.Preds[0]
+		idx = len(b.Instrs)
+	}
+	return nil
 }
